@@ -183,7 +183,8 @@ func abortKindOf(p string) string {
 
 func c07tokens(size int64) []string {
 	return []string{"-", ",", " ", "0", "1", "9", "10", strconv.FormatInt(size-1, 10), strconv.FormatInt(size, 10),
-		"9223372036854775807", "9223372036854775808", "18446744073709551616", "1000000000000000000000000000000", "x"}
+		"2147483647", "2147483648", "4294967295", "4294967296",
+		"9223372036854775807", "9223372036854775808", "18446744073709551615", "18446744073709551616", "1000000000000000000000000000000", "x"}
 }
 
 var c07prefixes = []string{"bytes=", "Bytes=", "BYTES=", "bytes =", "bytes==", " bytes=", "byte=", "bytes", "", "=", "items="}
@@ -520,7 +521,7 @@ func init() {
 	core.Register(&core.Monitor{
 		ID:    "C07",
 		Level: "exploration",
-		Rule: "function level: every string prefix+tokens with prefix in 11 unit forms and up to <depth> tokens from {-, ',', SP, 0, 1, 9, 10, size-1, size, 2^63-1, 2^63, 2^64, 10^30, x} for each representation size in {0,1,2,17,1000,70000} (bounded-exhaustive) plus seeded random strings, through the real header parser + SliceSize under recover, judged against an arbitrary-precision RFC 9110 reference; " +
+		Rule: "function level: every string prefix+tokens with prefix in 11 unit forms and up to <depth> tokens from {-, ',', SP, 0, 1, 9, 10, size-1, size, 2^31-1, 2^31, 2^32-1, 2^32, 2^63-1, 2^63, 2^64-1, 2^64, 10^30, x} for each representation size in {0,1,2,17,1000,70000} (bounded-exhaustive) plus seeded random strings, through the real header parser + SliceSize under recover, judged against an arbitrary-precision RFC 9110 reference; " +
 			"end to end: one representative per (reference class, implementation behaviour, length) group and size, 22 fixed boundary strings per size and a seeded sample, crossed round-robin with 9 If-Range forms, both retry_on_invalid_range settings, both backends and transports, through the real proxy against an origin that ignores Range; the 206/416/200 the client parses is checked byte for byte. Non-trivial = distinct (string,size) that is not 'malformed' (function level) / distinct case (e2e).",
 		Assumptions: []string{"a Range string that is not well-formed even after removing SP/HTAB has no defined meaning: any in-bounds slice, 416 or full 200 is accepted for it",
 			"a well-formed satisfiable range may be refused (416 / 200) but if a 206 is served it must be exactly the RFC 9110 slice", "If-Range with a date later than Last-Modified is not judged"},
